@@ -34,6 +34,8 @@ pub fn run_deps_case(case: &Case, env: &Env, prop: &str) -> CaseOut {
     util::fresh_cwd(&dir);
     let mut t = Tape::new(&case.main);
     let msvc = t.chance(50);
+    // some toolchains set both: the /showIncludes notes must still be filtered, the depfile supplies the deps
+    let both = msvc && t.chance(30);
     let hdr = ["hdr.h", "inc/hdr.h", "a b.h"][t.below(3)];
     let other = "sub/other.h";
     let (k1, k2, k3) = (t.below(5), t.below(5), t.below(5));
@@ -41,7 +43,7 @@ pub fn run_deps_case(case: &Case, env: &Env, prop: &str) -> CaseOut {
     let crlf = msvc && t.chance(40);
     let extra_spaces = if msvc { t.below(4) } else { 0 };
     // spaces inside names cannot be expressed in a depfile here: keep that name for msvc only
-    let hdr = if !msvc && hdr.contains(' ') { "hdr.h" } else { hdr };
+    let hdr = if (!msvc || both) && hdr.contains(' ') { "hdr.h" } else { hdr };
     for f in [hdr, other, "in.c", "gen.in"] {
         if let Some(p) = std::path::Path::new(f).parent() {
             if !p.as_os_str().is_empty() {
@@ -60,6 +62,13 @@ pub fn run_deps_case(case: &Case, env: &Env, prop: &str) -> CaseOut {
     }
     let (s_hdr, s_gen, s_other) = (spell(hdr, k1), spell("gen.h", k2), spell(other, k3));
     let nl = if crlf { "\\r\\n" } else { "\\n" };
+    let dep_part = format!(
+        "printf 'out.o: %s \\\\\\n  %s' '{h}' '{g}' > out.o.d ; if test -f {o}; then printf ' %s' '{os}' >> out.o.d; fi ; printf '\\n' >> out.o.d ; ",
+        h = s_hdr,
+        g = s_gen,
+        o = other,
+        os = s_other
+    );
     let cmd = if msvc {
         let pad = " ".repeat(extra_spaces);
         format!(
@@ -82,12 +91,14 @@ pub fn run_deps_case(case: &Case, env: &Env, prop: &str) -> CaseOut {
             hraw = hdr
         )
     };
+    let cmd = if both { format!("{}{}", dep_part, cmd) } else { cmd };
     let mut m = String::new();
     m += "rule gen\n  command = cp gen.in gen.h\nbuild gen.h: gen gen.in\n";
     m += &format!("rule cc\n  command = {}\n  description = CC\n", ninja_escape_value(&cmd));
     if msvc {
         m += "  deps = msvc\n";
-    } else {
+    }
+    if !msvc || both {
         m += "  depfile = out.o.d\n";
     }
     m += &format!("build out.o: cc in.c{} || gen.h\n", if declared_too { format!(" | {}", crate::sim::model::esc(hdr)) } else { String::new() });
@@ -133,7 +144,7 @@ pub fn run_deps_case(case: &Case, env: &Env, prop: &str) -> CaseOut {
     step("final rebuild without changes", 0, "no work to do", &mut trace);
     out.viols = viols.into_inner();
     out.evals = 7;
-    out.classes = vec![if msvc { "msvc".to_string() } else { "depfile".to_string() }];
+    out.classes = vec![if both { "msvc+depfile".to_string() } else if msvc { "msvc".to_string() } else { "depfile".to_string() }];
     if declared_too {
         out.classes.push("also-declared".into());
     }
